@@ -22,6 +22,8 @@ def run(tier, seed, opens):
     from bitcoinlib.transactions import Transaction, Input, Output
     from bitcoinlib.keys import Key
     t0 = time.time()
+    import random as _random
+    _random.seed(2020 + seed)           # the library itself draws from the global generator (output order, number of change outputs)
     tmp = tempfile.mkdtemp(prefix='c20-', dir=os.environ.get('BCL_DATA_DIR'))
     cases = ok = 0
     failed, known = [], {}
@@ -192,6 +194,30 @@ def run(tier, seed, opens):
                         ok += 1
                     except Exception as e:
                         fail('warm gettransaction', dict(scen, txid=t.txid[-6:]), 'raised %s: %s' % (type(e).__name__, str(e)[:150]), 'stored transaction or ServiceError')
+        # a transaction the cache cannot hold (an input without a value) among the answer, at any height up to the chain tip: repeated queries with
+        # the provider up must keep returning the provider's whole answer - the cache may never claim to be complete past a transaction it lacks
+        tip = state['height']
+        for n in range(1, 4):
+            for heights in itertools.combinations_with_replacement((tip - 2, tip - 1, tip), n):
+                for j in range(n):
+                    cfg += 1
+                    db = 'sqlite:///' + os.path.join(tmp, 'x%d.sqlite' % cfg)
+                    state['chain'] = [make_tx(i, h) for i, h in enumerate(heights)]
+                    state['chain'][j].inputs[0].value = 0
+                    state['down'] = False
+                    want = [fingerprint(t) for t in state['chain']]
+                    scen = {'block_heights': list(heights), 'chain_tip': tip, 'transaction_without_input_value': j}
+                    for rnd in (1, 2, 3):
+                        cases += 1
+                        try:
+                            got = [fingerprint(t) for t in Service(network=net, cache_uri=db).gettransactions(address)]
+                            if got != want:
+                                fail('gettransactions, query %d, one transaction cannot be cached' % rnd, scen, repr([g[0][-6:] for g in got]), repr([w[0][-6:] for w in want]))
+                                break
+                            ok += 1
+                        except Exception as e:
+                            fail('gettransactions, query %d, one transaction cannot be cached' % rnd, scen, 'raised %s: %s' % (type(e).__name__, str(e)[:150]), 'the provider answer')
+                            break
         # unspent outputs: the cache holds some of the address's transactions (fetched one by one), with the spent status of the output either
         # known (False) or unknown (None: the provider gave no spent information); every output is in fact unspent, so getutxos must return
         # all of them, in order, whatever part came from the cache
